@@ -362,4 +362,38 @@ Section C16.
       else
         extract_all c16_out [member (N.to_nat listed)] c16_fs0 in
     [if ok then 1 else 0] :: map (fun e => fst e ++ 256 :: snd e) (fold_right ins_row [] (files_under f)).
+
+  (* c16-symlink: the output directory already holds symbolic links that lead outside.
+     "/" of the model is the sandbox directory of the harness (the archive file a.mla, which
+     no operation touches, is left out on both sides); the layout is Path.fs_sandbox.
+     Result: status row, then EVERY regular file of the sandbox (path 256 content), every
+     directory (257 path) and every symbolic link (258 path), each group sorted by path. *)
+  Definition c16sl_fs0 : fs := fs_sandbox.
+  Definition all_nodes (f : fs) : list (bytes * node) :=
+    flat_map (fun p => match p with
+                       | [] => []
+                       | _ => match lookup f p with Some n => [(join_path p, n)] | None => [] end
+                       end) (dedup_paths (map fst f) []).
+  Definition snapshot_rows (f : fs) : list (list N) :=
+    let ns := all_nodes f in
+    let sorted (l : list (bytes * bytes)) := fold_right ins_row [] l in
+    map (fun e => fst e ++ 256 :: snd e)
+        (sorted (flat_map (fun e => match snd e with File c => [(fst e, c)] | _ => [] end) ns)) ++
+    map (fun e => 257 :: fst e)
+        (sorted (flat_map (fun e => match snd e with Dir => [(fst e, [])] | _ => [] end) ns)) ++
+    map (fun e => 258 :: fst e)
+        (sorted (flat_map (fun e => match snd e with Link _ => [(fst e, [])] | _ => [] end) ns)).
+  Definition c16sl_extract (form : N) (names : list bytes) (order : list N) (listed : N) (f0 : fs)
+    : fs * bool :=
+    let member i := (nth i names [], c16_content i) in
+    if form =? 0 then
+      extract_linear c16_out names (map (fun i => member (N.to_nat i)) order) f0
+    else if form =? 1 then
+      extract_all c16_out (map member (seq 0 (length names))) f0
+    else
+      extract_all c16_out [member (N.to_nat listed)] f0.
+  Definition c16sl_run (_ : consts) (form : N) (names : list bytes) (order : list N) (listed : N)
+    : list (list N) :=
+    let '(f, ok) := c16sl_extract form names order listed c16sl_fs0 in
+    [if ok then 1 else 0] :: snapshot_rows f.
 End C16.
